@@ -71,7 +71,7 @@ SPEC = Spec(
         "the consume / extension theorems (C18_consume_*, C18_consumeFull_*, C18_consume_forwards_empty, C18_extension_refuses_iff) restate the "
         "model's definitions (rfl/simp); they are differential-backed facts: their weight is the exact diff of consumeFull incl. four counters "
         "against the real processors",
-        "the theorems are about the repaired Start (fix commit in /tmp/wt-C18: ticker.Reset on the 0->1 transition); the pinned Start is "
+        "the theorems are about the repaired Start (fix commit 019305aed in /repo: ticker.Reset on the 0->1 transition); the pinned Start is "
         "modelled as RC.stepPinned with the kernel-checked counterexample C18_refcount_pinned_full_fails",
     ],
 )
